@@ -91,6 +91,21 @@ pub mod path {
             ensures r ==> (w.fs.files.contains_key(resolve(w.fs, self@)) || w.fs.dirs.contains(resolve(w.fs, self@))),
                 w.healthy ==> (r <==> (w.fs.files.contains_key(resolve(w.fs, self@)) || w.fs.dirs.contains(resolve(w.fs, self@)))),
         { unimplemented!() }
+        /// follows symbolic links: a regular file is there (whatever it holds)
+        #[verifier::external_body]
+        pub fn is_file(&self, Tracked(w): Tracked<&World>) -> (r: bool)
+            ensures r ==> w.fs.files.contains_key(resolve(w.fs, self@)),
+                w.healthy ==> (r <==> w.fs.files.contains_key(resolve(w.fs, self@))),
+        { unimplemented!() }
+        #[verifier::external_body]
+        pub fn is_dir(&self, Tracked(w): Tracked<&World>) -> (r: bool)
+            ensures r ==> w.fs.dirs.contains(resolve(w.fs, self@)),
+                w.healthy ==> (r <==> w.fs.dirs.contains(resolve(w.fs, self@))),
+        { unimplemented!() }
+        #[verifier::external_body]
+        pub fn is_symlink(&self, Tracked(w): Tracked<&World>) -> (r: bool)
+            ensures r ==> w.fs.links.contains_key(self@),
+        { unimplemented!() }
     }
     /// the path is absolute (does not depend on the working directory or on where a symlink
     /// holding it lives)
